@@ -1,6 +1,7 @@
 package main
 
 import (
+	"sync"
 	"fmt"
 	"go/types"
 	"runtime"
@@ -19,27 +20,58 @@ func runtimeStack(buf []byte) int { return runtime.Stack(buf, false) }
 
 func reg(name string, f intrinsic) { intrinsics[name] = f }
 
+// fnName caches ssa.Function.String(), which formats types on every call.
+var fnNames sync.Map
+
+func fnName(fn *ssa.Function) string {
+	if s, ok := fnNames.Load(fn); ok {
+		return s.(string)
+	}
+	s := fn.String()
+	fnNames.Store(fn, s)
+	return s
+}
+
+type intrEntry struct {
+	h    intrinsic
+	name string
+}
+
+var intrCache sync.Map // *ssa.Function -> intrEntry
+
 func (in *Interp) lookupIntrinsic(fn *ssa.Function) intrinsic {
+	if e, ok := intrCache.Load(fn); ok {
+		ent := e.(intrEntry)
+		if ent.name != "" && !in.intrSeen[ent.name] {
+			in.intrSeen[ent.name] = true
+		}
+		return ent.h
+	}
+	h, name := in.lookupIntrinsic0(fn)
+	intrCache.Store(fn, intrEntry{h, name})
+	if name != "" {
+		in.intrSeen[name] = true
+	}
+	return h
+}
+
+func (in *Interp) lookupIntrinsic0(fn *ssa.Function) (intrinsic, string) {
 	name := fn.Name()
 	if len(name) > 1 && name[0] == 'v' && name[1] >= 'A' && name[1] <= 'Z' && fn.Signature.Recv() == nil {
 		if h, ok := harnessAPI[name]; ok {
-			return h
+			return h, ""
 		}
 	}
-	full := fn.String()
+	full := fnName(fn)
 	if h, ok := intrinsics[full]; ok {
-		if !in.intrSeen[full] {
-			in.intrSeen[full] = true
-		}
-		return h
+		return h, full
 	}
 	if o := fn.Origin(); o != nil {
-		if h, ok := intrinsics[o.String()]; ok {
-			in.intrSeen[o.String()] = true
-			return h
+		if h, ok := intrinsics[fnName(o)]; ok {
+			return h, fnName(o)
 		}
 	}
-	return nil
+	return nil, ""
 }
 
 func (in *Interp) panicString(v Value) string {
@@ -359,6 +391,17 @@ func init() {
 		return s.Concrete()
 	}
 	reg(lrx+"FindStringSubmatch", func(in *Interp, c *frame, fn *ssa.Function, a []Value) Value {
+		if s := a[1].(Str); !s.IsConcrete() && !s.opaque {
+			m := in.regexSubmatch(c, pat(in, a[0]), s)
+			if m == nil {
+				return Slice{}
+			}
+			arr := make([]Value, len(m))
+			for i, x := range m {
+				arr[i] = x
+			}
+			return Slice{A: arr, Len: len(arr), Cap: len(arr), nonNil: true}
+		}
 		return strSlice(compileRE(pat(in, a[0])).re.FindStringSubmatch(concreteArg(a[1], "regexp FindStringSubmatch")))
 	})
 	reg(lrx+"FindString", func(in *Interp, c *frame, fn *ssa.Function, a []Value) Value {
